@@ -29,7 +29,7 @@ def accepted(ev):
 class delay(ContractBase):
     params = {'when': EVENT}
     returns = TD
-    modifies = ['dawgie.pl.schedule.booted']
+    modifies = []
     raises = {'_DelayNotKnowableError': lambda c: And(Not(OB.is_none(MOMENT.get(EVENT.get(c['when'], 'moment'), 'boot'))),
                                                       c.old.g('dawgie.pl.schedule.booted')[c['when']])}
 
@@ -56,14 +56,13 @@ class delay(ContractBase):
         d = If(OI.val(dom) < dim(y, mo), OI.val(dom), dim(y, mo))
         dd = ODATE.val(day)
         return {
-            'boot.immediately-once': Implies(Not(OB.is_none(boot)), And(rd == 0, rus == 0, c.cur.g('dawgie.pl.schedule.booted')[ev])),
+            'boot.immediately': Implies(Not(OB.is_none(boot)), And(rd == 0, rus == 0)),
             'dow.matches': Implies(Not(OI.is_none(dow)), And(isoweekday(tdays) - 1 == OI.val(dow), at_time)),
             'dow.within-a-week': Implies(Not(OI.is_none(dow)), within(7)),
             'dom.matches-clamped': Implies(Not(OI.is_none(dom)), And(valid_date(y, mo, d), tdays == days_from_civil(y, mo, d), at_time)),
             'dom.within-a-month': Implies(Not(OI.is_none(dom)), within(31)),
             'day.matches': Implies(Not(ODATE.is_none(day)),
                                    And(tdays == days_from_civil(DATE.get(dd, 'year'), DATE.get(dd, 'month'), DATE.get(dd, 'day')), at_time)),
-            'booted-only-grows': Implies(c.old.g('dawgie.pl.schedule.booted')[c.sk('e', EVENT)], c.cur.g('dawgie.pl.schedule.booted')[c.sk('e', EVENT)]),
         }
 
 
